@@ -987,6 +987,10 @@ func (b *Broker) sendAndReceiveSASLHandshake(saslType SASLMechanism, version int
 	}
 
 	length := binary.BigEndian.Uint32(header[:4])
+	if length < 4 || length > uint32(MaxResponseSize) {
+		b.addRequestInFlightMetrics(-1)
+		return PacketDecodingError{fmt.Sprintf("SASL handshake response of length %d too large or too small", length)}
+	}
 	payload := make([]byte, length-4)
 	n, err := b.readFull(payload)
 	if err != nil {
